@@ -211,6 +211,11 @@ def check_model(model, globals0, run_it=True):
     return checked, [k for k, _ in kinds if k]
 
 
+USE_TEMPLATES = ["systemLog(arrayNew(0, 0, 0, {v}))", "systemLog(if(false, 0, {v}))", "systemLog(if({v}, 'set', 'unset'))", "systemLog(objectNew('a', 1, 'b', {v}))",
+                 "systemLog(-{v})", "systemLog(!{v})", "systemLog(({v}))", "systemLog(1 + 2 * {v})", "systemLog(mathMax(0, 1, 2, 3, {v}))",
+                 "if {v} > 1:\n{i}    systemLog('big')\n{i}endif", "systemLog(stringNew(arrayNew(arrayNew({v}))))", "systemLog([{v}])"]
+
+
 def sloppy_source(rnd, src):
     out = src.rstrip('\n').split('\n')
     k = 0
@@ -219,9 +224,16 @@ def sloppy_source(rnd, src):
         if rnd.random() < 0.15 and not out[k].lstrip().startswith(('elif', 'else', 'endif', 'endwhile', 'endfor', 'endfunction')):
             ind = re.match(r'^\s*', out[k]).group(0)
             n += 1
-            line = rnd.choice(SLOPPY)
-            out.insert(k, ind + (line % n if '%d' in line else line))
-            k += 1
+            if rnd.random() < 0.35:
+                # a variable that IS used, in an unusual position (deep argument, unary, group, condition, bracketed name)
+                v = 'uq%d' % n
+                out.insert(k, ind + '%s = %d' % (v, rnd.randint(2, 9)))
+                out.insert(k + 1, ind + rnd.choice(USE_TEMPLATES).format(v=v, i=ind))
+                k += 2
+            else:
+                line = rnd.choice(SLOPPY)
+                out.insert(k, ind + (line % n if '%d' in line else line))
+                k += 1
         k += 1
     return '\n'.join(out) + '\n'
 
